@@ -72,19 +72,22 @@ class BooleanParameter(Parameter):
         if isinstance(value, bool):
             return value
 
-        if isinstance(value, int):
-            return bool(value)
-
         if isinstance(value, six.string_types):
             if value.lower() == "true":
                 return True
             elif value.lower() == "false":
                 return False
 
+        # 0 and 1 are the numeric forms of false and true; any other number is not a boolean
+        number = value
+        if isinstance(value, six.string_types):
             try:
-                return bool(int(value))
+                number = int(value)
             except ValueError:
                 pass
+
+        if isinstance(number, int) and number in (0, 1):
+            return bool(number)
 
         raise ParameterNotValid(value, "Boolean", lineno)
 
